@@ -36,6 +36,27 @@ def matrix(tier, rnd):
     for cause in ("quit", "kill", "cancel", "interrupt"):
         # the input is a plain reader parked in Read (it cannot be cancelled): nobody may wait for it
         add(P.lifecycle_scenario(0, cause, "idle", "input", after_api=True))
+    # the output writer panics once while the terminal is being handed back (the show-cursor write of the exit path): Run
+    # recovers and returns; everybody waiting is released all the same
+    for cause in ("quit", "interrupt", "cancel"):
+        x = P.lifecycle_scenario(0, cause, "idle", "none", before_api=True, after_api=True)
+        if x:
+            sc, m = x
+            sc["out_fault"] = {"match": "\u001b[?25h", "panic": True}
+            m["point"] = "idle:writer-panics-at-exit"
+            m["causes"] = list(m["causes"]) + ["panic"]
+            add((sc, m))
+    # many callers at once: 150 Println/Printf/Send calls parked behind a busy loop when the cause strikes, 150 more after the end
+    for cause in ("quit", "kill", "cancel"):
+        x = P.lifecycle_scenario(0, cause, "update", "none", before_api=True, after_api=True)
+        if x:
+            sc, m = x
+            k = next(i for i, st in enumerate(sc["script"]) if st.get("do") == "api")
+            sc["script"][k:k] = [P.DO("api", kind="println", n=100), P.DO("api", kind="printf", n=30), P.DO("api", kind="send", n=20)]
+            sc["script"] = [st for st in sc["script"] if st != P.W("api")] + \
+                [P.DO("api", kind="println", n=100), P.DO("api", kind="printf", n=30), P.DO("api", kind="send", n=20), P.W("api")]
+            m["point"] = "update:many-callers"
+            add((sc, m))
     # the context is already cancelled when Run is called (callers before and after)
     add(P.lifecycle_scenario(0, "cancel", "before-run", "none", before_api=True, after_api=True))
     add(P.lifecycle_scenario(0, "cancel", "before-run", "none", after_api=True, waits_before_run=3))
